@@ -124,6 +124,7 @@ type checkOpts struct {
 	workDir                string
 	skipUnclaimed          bool
 	quiet                  bool
+	noRetry                bool // dev / ledger update: report first-pass results and timings
 }
 
 // runProperty loads, generates and discharges everything tagged with the property.
@@ -266,6 +267,44 @@ func runProperty(o checkOpts) ([]*funcResult, *Engine, []string, error) {
 		}
 		discharge(r.ctx.log, r.ctx.litPrelude(), obs, dischargeOpts{dir: filepath.Join(dir, sanitize(r.ctx.fn)), timeoutS: o.timeoutS, agree: o.agree, workers: 5})
 	}
+	// Second pass against load-induced time-outs: a claimed (or helper) obligation that got no definite answer
+	// (unknown/timeout, never sat) is decided once more with three times the limits and only two queries in flight.
+	// A longer limit can only turn "undecided" into a definite answer, so this cannot hide a failure; it is capped
+	// so that a change that breaks many obligations is not slowed down (then nothing is retried).
+	if !o.noRetry {
+		claimed := map[string]bool{}
+		if ent := loadLedger(o.verif)[o.prop]; ent != nil {
+			for _, n := range ent.Claimed {
+				claimed[n] = true
+			}
+		}
+		const maxRetry = 12
+		n := 0
+		perFn := make([][]*Obligation, len(results))
+		for i, r := range results {
+			for _, ob := range r.ctx.obligations {
+				if ob.Smoke || ob.kfUnrestricted || (ob.Result != "unknown" && ob.Result != "timeout") {
+					continue
+				}
+				if claimed[ob.group()] || ob.Auto {
+					perFn[i] = append(perFn[i], ob)
+					n++
+				}
+			}
+		}
+		if n > 0 && n <= maxRetry {
+			for i, r := range results {
+				if len(perFn[i]) == 0 {
+					continue
+				}
+				for _, ob := range perFn[i] {
+					ob.Retried = true
+					ob.Agree = nil
+				}
+				discharge(r.ctx.log, r.ctx.litPrelude(), perFn[i], dischargeOpts{dir: filepath.Join(dir, sanitize(r.ctx.fn)), timeoutS: 3 * o.timeoutS, focusedS: 12, agree: o.agree, workers: 2})
+			}
+		}
+	}
 	return results, e, problems, nil
 }
 
@@ -376,6 +415,7 @@ func cmdCheck(args []string) int {
 	} else if !*dev && !*update {
 		o.skipUnclaimed = true
 	}
+	o.noRetry = *dev || *update
 	start := time.Now()
 	activeFindings = loadFindings(*verif)
 	results, e, problems, err := runProperty(o)
